@@ -70,14 +70,14 @@ CLAIMED.update({
              "numbers the wire nonce of every built token by first occurrence and BuilderTrace requires each build to carry a new "
              "one - repeated builds from one builder object (250 per object), fresh builders, identical and varying claims, all four "
              "local protocols, generic and prelude layers; per-bit frequencies of all nonces are checked inside the specification "
-             "against a Hoeffding bound (false alarm < 2^-64). Unpredictability in the cryptographic sense is not decidable here.",
+             "against a Hoeffding bound (false alarm < 2^-64); 8 threads build concurrently from separate builders and the union of their nonces must be duplicate-free (xthread record). Unpredictability in the cryptographic sense is not decidable here.",
         ref="5 C10", tech="TLA+ builder model + trace validation of recorded build histories (nonce identity, bit statistics)", note=BUILDER_NOTE),
     "C13": dict(
         text="MC_Builder explores every PasetoBuilder call history over {set exp/iat/nbf/custom, acknowledge, set_footer, "
              "set_implicit_assertion, build} to length 6 (thorough 7) with ExpDefault as invariant; every history is executed on the "
              "real builder (all histories on v4, short ones on the other protocols) and every built payload, read back and projected "
              "to default/caller values, is validated by TLC, as is the verdict of PasetoParser::default() on every built token; plus "
-             "random histories up to 40 calls; thorough: the inductive invariant of the builder model is discharged with Apalache "
+             "random histories up to 40 calls; family c13t lets time pass between calls (tick = real sleep; the builder state must not change and iat/nbf/exp defaults must lie in the bracket of the builder's creation, exp = iat + 1 h); thorough: the inductive invariant of the builder model is discharged with Apalache "
              "(unbounded histories, model level).",
         ref="5 C13", tech="TLA+ builder state machine (TLC, exhaustive histories) + trace validation of executed histories", note=BUILDER_NOTE),
     "C14": dict(
@@ -106,7 +106,7 @@ CLAIMED.update({
              "garbage values and values equal to the implementation's own placeholders, with and without an additional (shadowed) "
              "check_claim on exp/nbf whose value equals the token's, up to 2 parses per parser; the rendering space of past/future instants (every UTC offset -23:59..+23:59, "
              "0-9 fraction digits, T/space, 4 instants per class; stride 64 quick, full thorough on v4.local) is executed in parser "
-             "objects of 100 parses and validated by TLC.",
+             "objects of 100 parses and validated by TLC; family c11t lets the clock advance between configuration and parse and between parses (instants 2-3 s ahead of now become expired / valid while the parser object lives; a verdict frozen at construction or at the first parse is rejected).",
         ref="5 C11", tech="TLA+ default-validator model (TLC) + trace validation over the RFC 3339 rendering space", note=PARSER_NOTE),
     "C12": dict(
         text="As C11 with the direction reversed (NbfRejects); the full exp x nbf class product is explored so that an early return on "
